@@ -34,3 +34,13 @@ impl Variables {
         self.0.contains_key(name)
     }
 }
+
+#[cfg(feature = "verif-hooks")]
+impl Variables {
+    pub(crate) fn verif_entries(&self) -> Vec<(String, Value)> {
+        self.0
+            .iter()
+            .map(|(k, v)| (k.to_string(), v.clone()))
+            .collect()
+    }
+}
